@@ -558,7 +558,19 @@ func (c *fctx) stmt(s ast.Stmt) []ast.Stmt {
 	case *ast.ExprStmt:
 		var acc []access
 		c.collect(t.X, false, &acc)
-		return append(c.probes(acc), s)
+		pre := c.probes(acc)
+		if call, ok := t.X.(*ast.CallExpr); ok && len(call.Args) > 0 {
+			if id, ok := call.Fun.(*ast.Ident); ok && (id.Name == "clear" || id.Name == "copy") {
+				if _, label, leaves, sync, ok := c.resolve(call.Args[0]); ok && !sync && leaves == nil {
+					c.in.used = true
+					pre = append(pre, &ast.ExprStmt{X: &ast.CallExpr{
+						Fun:  &ast.SelectorExpr{X: ast.NewIdent(simrtName), Sel: ast.NewIdent("ElemsProbe")},
+						Args: []ast.Expr{call.Args[0], &ast.BasicLit{Kind: token.STRING, Value: strconv.Quote(label)}},
+					}})
+				}
+			}
+		}
+		return append(pre, s)
 	case *ast.ReturnStmt:
 		var acc []access
 		for _, r := range t.Results {
